@@ -35,6 +35,13 @@ matches is an oracle (`Pat.ms`); the COMBINATION is `globs`.
   `C05_counterexample_basename_historical`: what the same history did when the name was
   `filepath.Base` (a non-injective name table) — kept as a record, NOT true of the tree any more;
   `C05_detect_full_needs_injective_names`: why `NamesInj` is a hypothesis.
+* `C05_ignored_failure_ok` (F8C) — a failure swallowed by `ignore_error` keeps the fingerprint, so
+  `C05_idem` applies to such runs; `C05_match_independent` (F8E) — whether a path is a source does not
+  depend on other files (`C05_unmatched_field_fixed`: `{a,b}.e` with `b.e` absent).
+* Method timestamp detects a source strictly newer than the newest generates / marker
+  (`C05_detect_timestamp_partial`) and NOTHING else: `C05_detect_timestamp_full` is false —
+  `C05_timestamp_removal_undetected`, `_rename_undetected`, `_old_addition_undetected`,
+  `_restored_mtime_undetected` (open finding `C05-timestamp-misses-non-mtime-changes`).
 * `C05_mtime` — checksum does not look at mtimes; timestamp does.
 * `C05_missing_generates_timestamp_fixed` — the former witness of `C05-timestamp-missing-generates`
   (method timestamp did not notice a deleted `generates` file once its marker existed) is rebuilt.
@@ -73,7 +80,8 @@ theorem run_ok_stores {i : Nat} {t : Task} (ht : pr.tasks[i]? = some t) (e : Env
     (hok : (invoke cfg H pr i .run e s).2.exit = .ok) :
     (invoke cfg H pr i .run e s).1.sums = (isUpToDate H pr t false e.now s).1.sums ∧
     (invoke cfg H pr i .run e s).1.marks = (isUpToDate H pr t false e.now s).1.marks := by
-  rw [invoke_run cfg H pr ht] at hok ⊢
+  have hce := run_noerr_of_exit cfg H pr ht e s (by rw [hok]; simp)
+  rw [invoke_run cfg H pr ht e s hce] at hok ⊢
   split
   · exact ⟨rfl, rfl⟩
   · rename_i hup
@@ -85,7 +93,7 @@ theorem run_ok_stores {i : Nat} {t : Task} (ht : pr.tasks[i]? = some t) (e : Env
 source stream as it was, the generates exist and the status (if any) holds, the next run
 executes no command (it is skipped). -/
 theorem C05_idem_checksum {i : Nat} {t : Task} (ht : pr.tasks[i]? = some t) (hm : t.method = .checksum)
-    (hsrc : t.sources.isEmpty = false) (e1 e2 : Env) (s0 : State)
+    (hsrc : t.sources.isEmpty = false) (e1 e2 : Env) (hc2 : Plain e2) (s0 : State)
     (hok : (invoke cfg H pr i .run e1 s0).2.exit = .ok)
     (hfp : fpNow H pr t (invoke cfg H pr i .run e1 s0).1.files = fpNow H pr t s0.files)
     (hgen : gensOk t (invoke cfg H pr i .run e1 s0).1.files = true)
@@ -98,7 +106,44 @@ theorem C05_idem_checksum {i : Nat} {t : Task} (ht : pr.tasks[i]? = some t) (hm 
   have hstored := sumCheck_stored H pr t s0
   rw [← hst1, ← hfp] at hstored
   generalize (invoke cfg H pr i .run e1 s0).1 = s1 at *
-  rw [invoke_run cfg H pr ht]
+  rw [invoke_run_plain cfg H pr ht e2 hc2]
+  have hup : (isUpToDate H pr t false e2.now s1).2 = true := by
+    rw [isUpToDate_sources H pr hsrc]
+    simp only [srcCheck, hm, sumCheck_result, hgen, hstored]
+    rcases hst with h | h <;> simp [h]
+  rw [if_pos hup]
+  exact ⟨rfl, rfl⟩
+
+/-- state after the up-to-date check of a `--force` run that exits `ok` (F8F: the sources checker runs
+for what it records; the body does not touch the stores) -/
+theorem force_ok_stores {i : Nat} {t : Task} (ht : pr.tasks[i]? = some t) (e : Env) (hg : e.gset = true) (s : State)
+    (hok : (invoke cfg H pr i .force e s).2.exit = .ok) :
+    (invoke cfg H pr i .force e s).1.sums = (isUpToDate H pr t false e.now s).1.sums ∧
+    (invoke cfg H pr i .force e s).1.marks = (isUpToDate H pr t false e.now s).1.marks := by
+  have hfs : forceStart H pr t e s = (isUpToDate H pr t false e.now s).1 := by
+    simp [forceStart, checkErr_gset t e s.files hg]
+  rw [invoke_force cfg H pr ht, hfs] at hok ⊢
+  have := runBody_ok cfg H pr i t e _ hok
+  exact ⟨this.1, this.2.1⟩
+
+/-- **Idempotence after `--force`, method checksum** (F8F): a forced run that exited `ok` has recorded
+the fingerprint like any other run: if the commands left the source stream as it was, the generates
+exist and the status (if any) holds, the next run WITHOUT `--force` executes no command. -/
+theorem C05_idem_checksum_after_force {i : Nat} {t : Task} (ht : pr.tasks[i]? = some t) (hm : t.method = .checksum)
+    (hsrc : t.sources.isEmpty = false) (e1 e2 : Env) (hg1 : e1.gset = true) (hc2 : Plain e2) (s0 : State)
+    (hok : (invoke cfg H pr i .force e1 s0).2.exit = .ok)
+    (hfp : fpNow H pr t (invoke cfg H pr i .force e1 s0).1.files = fpNow H pr t s0.files)
+    (hgen : gensOk t (invoke cfg H pr i .force e1 s0).1.files = true)
+    (hst : t.status.isEmpty = true ∨ statusOk t (invoke cfg H pr i .force e1 s0).1.files = true) :
+    (invoke cfg H pr i .run e2 (invoke cfg H pr i .force e1 s0).1).2.ran = [] ∧
+    (invoke cfg H pr i .run e2 (invoke cfg H pr i .force e1 s0).1).2.skipped = true := by
+  have hst1 := (force_ok_stores cfg H pr ht e1 hg1 s0 hok).1
+  rw [isUpToDate_sources H pr hsrc] at hst1
+  simp only [srcCheck, hm] at hst1
+  have hstored := sumCheck_stored H pr t s0
+  rw [← hst1, ← hfp] at hstored
+  generalize (invoke cfg H pr i .force e1 s0).1 = s1 at *
+  rw [invoke_run_plain cfg H pr ht e2 hc2]
   have hup : (isUpToDate H pr t false e2.now s1).2 = true := by
     rw [isUpToDate_sources H pr hsrc]
     simp only [srcCheck, hm, sumCheck_result, hgen, hstored]
@@ -112,7 +157,7 @@ rerun) and that the `status:` commands (if any) did not fail BEFORE the first ru
 task ran, it was the timestamp check that asked for it and touched the marker (TS2 touches the
 marker only then; see `C05_idem_timestamp_status_counterexample`). -/
 theorem C05_idem_timestamp {i : Nat} {t : Task} (ht : pr.tasks[i]? = some t) (hm : t.method = .timestamp)
-    (hsrc : t.sources.isEmpty = false) (e1 e2 : Env) (s0 : State)
+    (hsrc : t.sources.isEmpty = false) (e1 e2 : Env) (hc1 : Plain e1) (hc2 : Plain e2) (s0 : State)
     (hok : (invoke cfg H pr i .run e1 s0).2.exit = .ok)
     (hold : ∀ p ∈ srcsNow t (invoke cfg H pr i .run e1 s0).1.files,
       mtimeOf (invoke cfg H pr i .run e1 s0).1.files p ≤ e1.now)
@@ -124,7 +169,7 @@ theorem C05_idem_timestamp {i : Nat} {t : Task} (ht : pr.tasks[i]? = some t) (hm
   have hts : Ts t := ⟨hm, hsrc⟩
   -- the state after the first run is up to date as far as the timestamp check is concerned
   have hup1 : tsUp t (invoke cfg H pr i .run e1 s0).1 = true := by
-    rw [invoke_run cfg H pr ht] at hok hold hgen ⊢
+    rw [invoke_run_plain cfg H pr ht e1 hc1] at hok hold hgen ⊢
     by_cases hup0 : (isUpToDate H pr t false e1.now s0).2 = true
     · -- skipped: the check left the state alone, or created the marker
       rw [if_pos hup0]
@@ -147,7 +192,7 @@ theorem C05_idem_timestamp {i : Nat} {t : Task} (ht : pr.tasks[i]? = some t) (hm
       intro p hp
       exact Nat.le_trans (hold p hp) (le_maxOf _ _ hmem)
   generalize (invoke cfg H pr i .run e1 s0).1 = s1 at *
-  rw [invoke_run cfg H pr ht]
+  rw [invoke_run_plain cfg H pr ht e2 hc2]
   have hup : (isUpToDate H pr t false e2.now s1).2 = true := by
     rw [isUpToDate_ts H pr hts]
     simp only [hup1]
@@ -157,7 +202,7 @@ theorem C05_idem_timestamp {i : Nat} {t : Task} (ht : pr.tasks[i]? = some t) (hm
 
 /-- **C05_idem**, both methods. -/
 theorem C05_idem {i : Nat} {t : Task} (ht : pr.tasks[i]? = some t) (hmeth : t.method ≠ .none)
-    (hsrc : t.sources.isEmpty = false) (e1 e2 : Env) (s0 : State)
+    (hsrc : t.sources.isEmpty = false) (e1 e2 : Env) (hc1 : Plain e1) (hc2 : Plain e2) (s0 : State)
     (hok : (invoke cfg H pr i .run e1 s0).2.exit = .ok)
     (hunch : match t.method with
       | .checksum => fpNow H pr t (invoke cfg H pr i .run e1 s0).1.files = fpNow H pr t s0.files ∧
@@ -172,24 +217,25 @@ theorem C05_idem {i : Nat} {t : Task} (ht : pr.tasks[i]? = some t) (hmeth : t.me
   cases hm : t.method with
   | checksum =>
     rw [hm] at hunch
-    exact (C05_idem_checksum cfg H pr ht hm hsrc e1 e2 s0 hok hunch.1 hunch.2 hst).1
+    exact (C05_idem_checksum cfg H pr ht hm hsrc e1 e2 hc2 s0 hok hunch.1 hunch.2 hst).1
   | timestamp =>
     rw [hm] at hunch
-    exact (C05_idem_timestamp cfg H pr ht hm hsrc e1 e2 s0 hok hunch.1 hunch.2.1 hunch.2.2 hst).1
+    exact (C05_idem_timestamp cfg H pr ht hm hsrc e1 e2 hc1 hc2 s0 hok hunch.1 hunch.2.1 hunch.2.2 hst).1
   | none => exact absurd hm hmeth
 
 /-! ## What forces a run -/
 
 /-- the prompt (if any) is answered yes and nothing interferes with the commands (no kill, no
-failing command, no `task:` call that could fail on its precondition) -/
+failing command, no sibling whose failure cancels the run, no `generates` entry that cannot be
+expanded — `Plain` —, no `task:` call that could fail on its precondition) -/
 def Calm (t : Task) (e : Env) : Prop :=
-  (t.prompt = false ∨ e.yes = true) ∧ e.killAt = none ∧ e.failAt = none ∧ ∀ c ∈ t.cmds, c.need = none
+  (t.prompt = false ∨ e.yes = true) ∧ e.killAt = none ∧ e.failAt = none ∧ Plain e ∧ ∀ c ∈ t.cmds, c.need = none
 
 theorem runBody_calm (i : Nat) (t : Task) (e : Env) (s : State) (hc : Calm t e) :
     (runBody cfg H pr i t false e s).2.ran = List.range' 0 t.cmds.length ∧
     (runBody cfg H pr i t false e s).2.exit = .ok ∧ (runBody cfg H pr i t false e s).2.skipped = false := by
-  obtain ⟨hp, hk, hf, hn⟩ := hc
-  have hl := cmdLoop_clean e hk hf t.cmds hn 0 (mkdirTask t s).files []
+  obtain ⟨hp, hk, hf, hpl, hn⟩ := hc
+  have hl := cmdLoop_clean e t.ignoreError hk hf hpl.1 t.cmds hn 0 (mkdirTask t s).files []
   unfold runBody
   have hcond : (t.prompt && !false && !e.yes) = false := by
     rcases hp with h | h <;> simp [h]
@@ -202,15 +248,20 @@ theorem C05_force {i : Nat} {t : Task} (ht : pr.tasks[i]? = some t) (e : Env) (s
     (invoke cfg H pr i .force e s).2.ran = List.range' 0 t.cmds.length ∧
     (invoke cfg H pr i .force e s).2.skipped = false := by
   rw [invoke_force cfg H pr ht]
-  exact ⟨(runBody_calm cfg H pr i t e s hc).1, (runBody_calm cfg H pr i t e s hc).2.2⟩
+  exact ⟨(runBody_calm cfg H pr i t e _ hc).1, (runBody_calm cfg H pr i t e _ hc).2.2⟩
 
 /-- a `run` that is not up to date enters the body: not skipped, and (if calm) every command runs -/
 theorem run_not_upToDate {i : Nat} {t : Task} (ht : pr.tasks[i]? = some t) (e : Env) (s : State)
     (h : (isUpToDate H pr t false e.now s).2 = false) :
     (invoke cfg H pr i .run e s).2.skipped = false ∧
     (Calm t e → (invoke cfg H pr i .run e s).2.ran = List.range' 0 t.cmds.length) := by
-  rw [invoke_run cfg H pr ht, h]
-  simp only [Bool.false_eq_true, if_false]
+  cases hce : checkErr t e s.files with
+  | true =>
+    rw [invoke_run_err cfg H pr ht e s hce]
+    exact ⟨rfl, fun hc => by rw [checkErr_gset t e s.files hc.2.2.2.1.2] at hce; cases hce⟩
+  | false =>
+  rw [invoke_run cfg H pr ht e s hce, h]
+  simp only [Bool.false_and, Bool.false_eq_true, if_false]
   constructor
   · unfold runBody
     simp only
@@ -444,11 +495,11 @@ theorem C05_detect_move_op (pr : Proj) (t : Task) (s : State) (l₁ l₂ : List 
 /- witness: paths 0 = `d/a.e`, 1 = `e/a.e` (same base name `a.e`), sources `**/*.e` -/
 private def tMv : Task :=
   { name := [120], label := [], method := .checksum, sources := [⟨false, [0, 1]⟩], generates := [],
-    status := [], prompt := false, dir := none, cmds := [⟨[], none⟩] }
+    status := [], prompt := false, dir := none, cmds := [⟨[], none, false⟩] }
 private def prMv : Proj :=
   { base := [(0, [100, 47, 97, 46, 101]), (1, [101, 47, 97, 46, 101])], dirOf := [], dirLen := [], tasks := [tMv] }
 private def sMv : State := { State.empty with files := [(0, ⟨[7], 5⟩)] }
-private def env (n : Nat) : Env := ⟨n, true, none, none⟩
+private def env (n : Nat) : Env := ⟨n, true, none, none, false, true, false⟩
 
 /- the same two files below a task directory `sub/` (directory 0, prefix length 4): paths
 `sub/d/a.e`, `sub/e/a.e`, names `d/a.e`, `e/a.e` -/
@@ -722,11 +773,83 @@ theorem C05_timestamp_newer_reruns (t : Task) (dry : Bool) (now : Nat) (s : Stat
   rw [tsCheck_result]
   exact tsUp_false_of_newer t s p hp hnew hpos
 
+/-! ### what method timestamp does NOT detect (open finding `C05-timestamp-misses-non-mtime-changes`) -/
+
+/- two sources (paths 0, 1), method timestamp, marker from a first run at 10 -/
+private def tTs2 : Task := { tMv with method := .timestamp }
+private def prTs2 : Proj := { prMv with tasks := [tTs2] }
+private def sTs2 : State := { State.empty with files := [(0, ⟨[7], 5⟩), (1, ⟨[8], 6⟩)] }
+
+/-- the detection clause of C05 for method timestamp, as the property states it: after a successful
+run, ANY change of the list of (path, content) of the matched files makes the next run execute -/
+def C05_detect_timestamp_full : Prop :=
+  ∀ (pr : Proj) (i : Nat) (t : Task), pr.tasks[i]? = some t → t.method = .timestamp → ∀ (s s' : State) (e : Env),
+    (invoke Cfg.fixed hId pr i .run e s).2.exit = .ok → s'.marks = (invoke Cfg.fixed hId pr i .run e s).1.marks →
+    (srcsNow t s'.files).map (fun p => (p, contentOf s'.files p)) ≠
+      (srcsNow t (invoke Cfg.fixed hId pr i .run e s).1.files).map (fun p => (p, contentOf (invoke Cfg.fixed hId pr i .run e s).1.files p)) →
+    ∀ e', (invoke Cfg.fixed hId pr i .run e' s').2.skipped = false
+
+/-- **REMOVAL** of a source is not noticed: the remaining files are as old as before -/
+theorem C05_timestamp_removal_undetected :
+    let s1 := (invoke Cfg.fixed hId prTs2 0 .run (env 10) sTs2).1
+    (invoke Cfg.fixed hId prTs2 0 .run (env 10) sTs2).2.ran = [0] ∧ srcsNow tTs2 s1.files = [0, 1] ∧
+    srcsNow tTs2 (applyOp prTs2 (.delete 1) s1).files = [0] ∧
+    (invoke Cfg.fixed hId prTs2 0 .run (env 20) (applyOp prTs2 (.delete 1) s1)).2.skipped = true := by decide
+
+/-- a **RENAME** (`mv`: content and mtime kept) is not noticed -/
+theorem C05_timestamp_rename_undetected :
+    let s0 : State := { State.empty with files := [(0, ⟨[7], 5⟩)] }
+    let s1 := (invoke Cfg.fixed hId prTs2 0 .run (env 10) s0).1
+    srcsNow tTs2 s1.files = [0] ∧ srcsNow tTs2 (applyOp prTs2 (.move 0 1) s1).files = [1] ∧
+    (invoke Cfg.fixed hId prTs2 0 .run (env 20) (applyOp prTs2 (.move 0 1) s1)).2.skipped = true := by decide
+
+/-- an **ADDITION with an old mtime** (a file copied in with its timestamps, unpacked from an archive) is
+not noticed -/
+theorem C05_timestamp_old_addition_undetected :
+    let s0 : State := { State.empty with files := [(0, ⟨[7], 5⟩)] }
+    let s1 := (invoke Cfg.fixed hId prTs2 0 .run (env 10) s0).1
+    srcsNow tTs2 (applyOp prTs2 (.write 1 [9] 3) s1).files = [0, 1] ∧
+    (invoke Cfg.fixed hId prTs2 0 .run (env 20) (applyOp prTs2 (.write 1 [9] 3) s1)).2.skipped = true := by decide
+
+/-- an **EDIT with the mtime restored** is not noticed -/
+theorem C05_timestamp_restored_mtime_undetected :
+    let s1 := (invoke Cfg.fixed hId prTs2 0 .run (env 10) sTs2).1
+    contentOf (applyOp prTs2 (.write 0 [9, 9] 5) s1).files 0 ≠ contentOf s1.files 0 ∧
+    (invoke Cfg.fixed hId prTs2 0 .run (env 20) (applyOp prTs2 (.write 0 [9, 9] 5) s1)).2.skipped = true := by decide
+
+theorem C05_detect_timestamp_full_false : ¬ C05_detect_timestamp_full := by
+  intro h
+  have := h prTs2 0 tTs2 rfl rfl sTs2 (applyOp prTs2 (.delete 1) (invoke Cfg.fixed hId prTs2 0 .run (env 10) sTs2).1) (env 10)
+    (by decide) (by decide) (by decide) (env 20)
+  revert this
+  decide
+
+/-- **Partial (what method timestamp DOES detect)**: a matched source that is strictly newer than the
+newest existing `generates` file and the marker makes the check fail — hence, for a calm run, every
+command runs (`C05_timestamp_newer_reruns` is the check-level statement). -/
+theorem C05_detect_timestamp_partial (cfg : Cfg) (H : Hashes) (pr : Proj) {i : Nat} {t : Task} (ht : pr.tasks[i]? = some t)
+    (hts : Ts t) (e : Env) (s : State) (p : Path) (hp : p ∈ srcsNow t s.files)
+    (hnew : ∀ m ∈ tsGts t s, m < mtimeOf s.files p) (hpos : 0 < mtimeOf s.files p) :
+    (invoke cfg H pr i .run e s).2.skipped = false ∧
+    (Calm t e → (invoke cfg H pr i .run e s).2.ran = List.range' 0 t.cmds.length) := by
+  apply run_not_upToDate cfg H pr ht
+  rw [isUpToDate_ts H pr hts]
+  have : tsUp t s = false := tsUp_false_of_newer t s p hp hnew hpos
+  simp only [this]
+  cases t.status.isEmpty <;> simp
+
+/-- non-vacuity of `C05_detect_timestamp_partial`: after the run at 10 a source written with mtime 15 -/
+example :
+    let s1 := applyOp prTs2 (.write 0 [9] 15) (invoke Cfg.fixed hId prTs2 0 .run (env 10) sTs2).1
+    Ts tTs2 ∧ (0 : Path) ∈ srcsNow tTs2 s1.files ∧ (∀ m ∈ tsGts tTs2 s1, m < mtimeOf s1.files 0) ∧
+    (invoke Cfg.fixed hId prTs2 0 .run (env 20) s1).2.ran = [0] := by
+  refine ⟨⟨rfl, rfl⟩, by decide, by decide, by decide⟩
+
 /-- **the former witness of `C05-timestamp-missing-generates`, now rebuilt** (TS1): run, delete the
 generates file, run again — the second run is not skipped and executes the command (an instance of
 `C05_missing_generates`; the marker exists, so before TS1 it alone supplied the time). -/
 theorem C05_missing_generates_timestamp_fixed :
-    let t : Task := { tTs with generates := [⟨false, [2]⟩], cmds := [⟨[(2, [9])], none⟩] }
+    let t : Task := { tTs with generates := [⟨false, [2]⟩], cmds := [⟨[(2, [9])], none, false⟩] }
     let pr : Proj := { prTs with tasks := [t] }
     let s1 := (invoke Cfg.fixed hId pr 0 .run (env 10) sMv).1
     let s2 := applyOp pr (.delete 2) s1
@@ -746,7 +869,7 @@ def C05_idem_timestamp_full : Prop :=
     (invoke cfg H pr i .run e2 (invoke cfg H pr i .run e1 s0).1).2.ran = []
 
 /- sources `[0]`, `status: test -f 1`; the single command rewrites the source and creates the status file -/
-private def tSt : Task := { tTs with status := [1], cmds := [⟨[(0, [9]), (1, [1])], none⟩] }
+private def tSt : Task := { tTs with status := [1], cmds := [⟨[(0, [9]), (1, [1])], none, false⟩] }
 private def prSt : Proj := { prTs with tasks := [tSt] }
 private def sSt : State := { State.empty with files := [(0, ⟨[7], 5⟩)], marks := [(tsKey tSt, 8)] }
 
@@ -773,6 +896,89 @@ theorem C05_idem_timestamp_full_false : ¬ C05_idem_timestamp_full := by
   rw [hc.2.2.2.2.2.2.2.2.1] at this
   cases this
 
+/-! ## Ignored failures (F8C) and patterns with an unmatched field (F8E) -/
+
+section
+variable (cfg : Cfg) (H : Hashes) (pr : Proj)
+
+/-- **a failure swallowed by the task's `ignore_error` is no failure of the task**: whichever command
+fails, every command starts, the run exits `ok`, and (F8C) the stores are what the up-to-date check
+left — the fingerprint is NOT removed.  With `C05_idem` the next run is skipped, like after any
+successful run; the same holds for `ignore_error` on the failing command (`cmdLoop`, `Cmd.ignorable`). -/
+theorem C05_ignored_failure_ok (i : Nat) (t : Task) (e : Env) (s : State) (hign : t.ignoreError = true)
+    (hp : t.prompt = false ∨ e.yes = true) (hk : e.killAt = none) (hcan : e.cancelled = false)
+    (hn : ∀ c ∈ t.cmds, c.need = none) :
+    (runBody cfg H pr i t false e s).2.exit = .ok ∧
+    (runBody cfg H pr i t false e s).2.ran = List.range' 0 t.cmds.length ∧
+    (runBody cfg H pr i t false e s).1.sums = s.sums ∧ (runBody cfg H pr i t false e s).1.marks = s.marks := by
+  have hl := cmdLoop_ignore_all e hk hcan t.cmds hn 0 (mkdirTask t s).files []
+  have hcond : (t.prompt && !false && !e.yes) = false := by
+    rcases hp with h | h <;> simp [h]
+  have hx : (runBody cfg H pr i t false e s).2.exit = .ok ∧
+      (runBody cfg H pr i t false e s).2.ran = List.range' 0 t.cmds.length := by
+    unfold runBody
+    simp only [hcond, Bool.false_eq_true, if_false, hign]
+    rw [hl.2]
+    simp [hl.1]
+  have hst := runBody_ok cfg H pr i t e s hx.1
+  exact ⟨hx.1, hx.2, hst.1, hst.2.1⟩
+
+end
+
+/- sources `[0]`; two commands, the first fails -/
+private def tIg : Task := { tMv with sources := [⟨false, [0]⟩], cmds := [⟨[], none, false⟩, ⟨[], none, false⟩], ignoreError := true }
+private def prIg : Proj := { prMv with tasks := [tIg] }
+
+/-- the former witness of D-C05-ignore-error, now idempotent: the first command fails, the failure is
+ignored, the run exits ok with both commands started — and the next run is SKIPPED (task-level and
+command-level `ignore_error` alike; non-vacuity of `C05_ignored_failure_ok` and of `C05_idem` for a
+run whose only failure was ignored) -/
+theorem C05_ignored_failure_fixed :
+    let e1 : Env := { env 10 with failAt := some 0 }
+    let r1 := invoke Cfg.fixed hId prIg 0 .run e1 sMv
+    r1.2.exit = .ok ∧ r1.2.ran = [0, 1] ∧ r1.1.sums ≠ [] ∧
+    (invoke Cfg.fixed hId prIg 0 .run (env 20) r1.1).2.skipped = true ∧
+    (let tc : Task := { tIg with ignoreError := false, cmds := [⟨[], none, true⟩, ⟨[], none, false⟩] }
+     let prc : Proj := { prMv with tasks := [tc] }
+     let rc := invoke Cfg.fixed hId prc 0 .run e1 sMv
+     rc.2.exit = .ok ∧ rc.2.ran = [0, 1] ∧ (invoke Cfg.fixed hId prc 0 .run (env 20) rc.1).2.skipped = true) := by
+  decide
+
+/-- **HISTORICAL (before F8C — NOT the tree any more)**: the clean-up of a failed run (`onError`) was
+applied although the failure was ignored: from THAT state the next run is not skipped — the task ran
+on every invocation -/
+theorem C05_ignored_failure_old_rule :
+    let e1 : Env := { env 10 with failAt := some 0 }
+    let r1 := invoke Cfg.fixed hId prIg 0 .run e1 sMv
+    (invoke Cfg.fixed hId prIg 0 .run (env 20) (onError tIg r1.1)).2.skipped = false ∧
+    (invoke Cfg.fixed hId prIg 0 .run (env 20) (onError tIg r1.1)).2.ran = [0, 1] := by decide
+
+/-- **whether a path is a source does not depend on other files** (what F8E makes true of the code:
+a field of the expanded pattern that cannot be stat'ed — `b.e` of `{a,b}.e`, a dangling link — is
+skipped, it does not take the pattern with it): two trees that agree on whether `p` exists agree on
+whether `p` is a source. -/
+theorem C05_match_independent (t : Task) (fs fs' : FS) (p : Path) (h : ahas fs' p = ahas fs p) :
+    p ∈ srcsNow t fs' ↔ p ∈ srcsNow t fs := by
+  rw [mem_srcsNow, mem_srcsNow, h]
+
+/-- the former witness of D-C05-glob-drop: the pattern matches paths 0 and 1 (`{a,b}.e`), only 0
+exists: it IS a source, and editing it makes the next run execute the command -/
+theorem C05_unmatched_field_fixed :
+    let s1 := (invoke Cfg.fixed hId prMv 0 .run (env 10) sMv).1
+    srcsNow tMv sMv.files = [0] ∧ (invoke Cfg.fixed hId prMv 0 .run (env 20) s1).2.skipped = true ∧
+    (invoke Cfg.fixed hId prMv 0 .run (env 20) (applyOp prMv (.write 0 [8] 15) s1)).2.ran = [0] := by decide
+
+/-- the former witness of D-C05-force, now idempotent (both methods): `--force`, then a plain run —
+skipped; **HISTORICAL** (`runBody` started from the state before the check — the tree before F8F): from
+THAT state the plain run executes the command again -/
+theorem C05_force_then_run_fixed :
+    let r1 := invoke Cfg.fixed hId prMv 0 .force (env 10) sMv
+    r1.2.exit = .ok ∧ r1.2.ran = [0] ∧ (invoke Cfg.fixed hId prMv 0 .run (env 20) r1.1).2.skipped = true ∧
+    (let rt := invoke Cfg.fixed hId prTs 0 .force (env 10) sMv
+     rt.2.ran = [0] ∧ (invoke Cfg.fixed hId prTs 0 .run (env 20) rt.1).2.skipped = true) ∧
+    (invoke Cfg.fixed hId prMv 0 .run (env 20) (runBody Cfg.fixed hId prMv 0 tMv false (env 10) sMv).1).2.ran = [0] := by
+  decide
+
 /-! ## non-vacuity of the idempotence and forcing theorems -/
 
 example :
@@ -780,13 +986,13 @@ example :
     r1.2.exit = .ok ∧ r1.2.ran = [0] ∧ fpNow hId prMv tMv r1.1.files = fpNow hId prMv tMv sMv.files ∧
     gensOk tMv r1.1.files = true ∧ (invoke Cfg.fixed hId prMv 0 .run (env 20) r1.1).2.ran = [] := by decide
 
-example : Calm tMv (env 3) := ⟨Or.inl rfl, rfl, rfl, by decide⟩
+example : Calm tMv (env 3) := ⟨Or.inl rfl, rfl, rfl, ⟨rfl, rfl⟩, by decide⟩
 
 /-- non-vacuity of `C05_idem_timestamp`: a first run that executes (marker at 10, generates written)
 and one with a `status:` that holds before and after; `C05_missing_generates` for method timestamp:
 `gensOk` is false on a state where the marker alone would vouch -/
 example :
-    let t : Task := { tTs with generates := [⟨false, [2]⟩], cmds := [⟨[(2, [9])], none⟩] }
+    let t : Task := { tTs with generates := [⟨false, [2]⟩], cmds := [⟨[(2, [9])], none, false⟩] }
     let pr : Proj := { prTs with tasks := [t] }
     let r1 := invoke Cfg.fixed hId pr 0 .run (env 10) sMv
     r1.2.exit = .ok ∧ r1.2.ran = [0] ∧ (∀ p ∈ srcsNow t r1.1.files, mtimeOf r1.1.files p ≤ 10) ∧
